@@ -53,4 +53,11 @@ CLAIMS["C18"] = {
     "text": "The real gater, penalty and rate-limit code runs on the simulated host and clock; every gate decision, disconnect and score is compared with a small reference model that has one sweep interval of slack around ban expiry. Sampling.",
     "note": "Trusted: the ban model (DESIGN A.7), simhost's imitation of the order in which the libp2p swarm consults the gater. Real libp2p is not executed.",
 }
+CLAIMS["C20"] = {
+    "engine": "schedsim", "level": "exploration", "design_ref": "2.6, 4/C20",
+    "technique": "deterministic simulation under the Go race detector: seeded interleavings of reader/writer tasks on the shared chain structures; happens-before race reports, lock-model deadlock detection (writer preference), porcupine linearizability of tip reads",
+    "text": "The shared structures run under the cooperative scheduler in a -race build in which the kernel's own synchronisation is hidden from the detector, so each report is a pair of accesses the program itself left unordered on a schedule that the seed reproduces. "
+            "The RWMutex model reproduces Go's writer preference, which is what turns a re-entrant read lock into a detected deadlock. Sampling of schedules.",
+    "note": "Trusted: Go's race detector, the lock model, porcupine v1.3.0. Non-preemptive scheduling: code between two synchronisation points runs atomically, so lost updates show up as race reports rather than as wrong results.",
+}
 PENDING = {}
